@@ -250,7 +250,7 @@ CHECKS = {
     },
     "C10": {
         "level": "exploration",
-        "rule": "rapid-generated cases on a client with pre-filled stores: a chain with ordinary spends, create-and-spend in one block, multi-output transactions and re-spends; 1-6 GetUtxo requests (unspent / spent / same-block / re-spent / multi-output / out-of-range index / never-created outpoints; start at birth, zero, before, between, at the spend, after, tip, above the tip; duplicates, same outpoint with another start, sibling outputs) and 0-24 events (issue request, release k withheld peer answers, new block, new block while answers are released, advance time, cancel, stop, blocks nobody serves). Peers withhold every getcfilters / getdata answer until released, so a running scan is parked at a known height when the next request arrives. Oracle: a reference fate-of-outpoint function computed from the serialised blocks (earliest spend at height >= start; else the output if the start block creates it; else empty) for every admissible chain end; an error only after stop / cancel / a withheld answer; every call returns. Non-trivial = a request was enqueued while an earlier one was outstanding and the scanner was parked on a withheld answer, or two issued requests concern outputs of one transaction; distinct = distinct case JSON",
+        "rule": "rapid-generated cases on a client with pre-filled stores: a chain with ordinary spends, create-and-spend in one block, multi-output transactions and re-spends; 1-6 GetUtxo requests (unspent / spent / same-block / re-spent / multi-output / out-of-range index / never-created outpoints; start at birth, zero, before, between, at the spend, after, tip, above the tip; duplicates, same outpoint with another start, sibling outputs) and 0-24 events (issue request, release k withheld peer answers, new block, new block while answers are released, advance time, cancel, stop, blocks nobody serves). Peers withhold every getcfilters / getdata answer until released, so a running scan is parked at a known height when the next request arrives. Oracle: a reference fate-of-outpoint function computed from the serialised blocks (earliest spend at height >= start; else the output if the start block creates it; else empty) for every admissible chain end; an error only after stop / cancel / a withheld answer; every call returns. Non-trivial = a request was enqueued while an earlier one was outstanding and the scanner was parked on a withheld answer, or two issued requests concern outputs of one transaction; distinct = distinct case JSON Unit scanner-stress: the real UtxoScanner with plain functions as collaborators on a static generated chain, 2-10 goroutines enqueueing requests while scans are running (each waits for a generated number of visited heights and yields a generated number of times; the collaborators yield too); every request must be answered with exactly the reference fate of (outpoint, start height, tip) whatever the batching. Non-trivial there = at least one request enqueued while a scan was under way.",
         "assumptions": NETSIM_ASSUME + [
             "requests with a start height above the client's best block carry no liveness assertion (the batch manager polls until the chain gets there); their answers are still checked",
             "new blocks only extend the chain (no reorganisation during a scan)",
@@ -259,6 +259,9 @@ CHECKS = {
             {"name": "netsim", "module": "harness", "pkg": "./checks/c10", "test": "TestC10", "tags": "verif",
              "quick": {"checks": 20, "shards": 16, "timeout": 900, "shrink": "15s"},
              "thorough": {"checks": 400, "shards": 16, "timeout": 5400, "shrink": "60s"}},
+            {"name": "scanner-stress", "module": "harness", "pkg": "./checks/c10", "test": "TestC10Stress", "tags": "verif",
+             "quick": {"checks": 40, "shards": 8, "timeout": 600},
+             "thorough": {"checks": 1500, "shards": 16, "timeout": 3600, "shrink": "30s"}},
         ],
     },
     "C16": {
@@ -282,7 +285,7 @@ CHECKS = {
 def _race_units():
     """C18: the race detector as oracle over reduced budgets of the other checks' generated executions."""
     want = {"C01": (6, 20), "C03": (5, 16), "C04": (4, 14), "C05": (5, 16), "C06": (5, 16), "C09": (200, 4000),
-            "C11": (300, 6000), "C12": (200, 4000), "C15": (300, 6000), "C17": (4, 14), "C19": (6, 20)}
+            "C10": (40, 200), "C11": (300, 6000), "C12": (200, 4000), "C15": (300, 6000), "C17": (4, 14), "C19": (6, 20)}
     units = []
     for pid, (q, th) in want.items():
         if pid not in CHECKS:
@@ -308,7 +311,7 @@ def _race_units():
 CHECKS["C18"] = {
     "level": "exploration",
     "detect_race": True,
-    "rule": "the test binaries of the C01, C03, C04, C05, C06, C09, C11, C12, C15, C17 and C19 checks are rebuilt with -race and a reduced budget of their rapid-generated executions is run (GOMAXPROCS 8, several shards); the oracle is the Go race detector: any report with a frame in neutrino code is a violation, a report between harness frames only is a harness error. evaluations = executions run under the detector; non-trivial = executions the underlying check classifies as non-trivial (the harness-scheduled block manager interleavings of C03's bm-sched unit are included; every network-simulation execution runs the block handler, the filter-header handler, the peer handlers, the query dispatcher and the harness callers concurrently); distinct = distinct case JSON per unit",
+    "rule": "the test binaries of the C01, C03, C04, C05, C06, C09, C10, C11, C12, C15, C17 and C19 checks are rebuilt with -race and a reduced budget of their rapid-generated executions is run (GOMAXPROCS 8, several shards); the oracle is the Go race detector: any report with a frame in neutrino code is a violation, a report between harness frames only is a harness error. evaluations = executions run under the detector; non-trivial = executions the underlying check classifies as non-trivial (the harness-scheduled block manager interleavings of C03's bm-sched unit are included; every network-simulation execution runs the block handler, the filter-header handler, the peer handlers, the query dispatcher and the harness callers concurrently); distinct = distinct case JSON per unit",
     "assumptions": [
         "the detector only sees races that occur in an explored execution",
         "property violations reported by the underlying checks are ignored here (they belong to those properties)",
